@@ -160,7 +160,8 @@ func (p *Path) execFunction(fn *ssa.Function, args []Value, bind []Value) []Valu
 	if p.depth > 400 {
 		panic(inconclusiveEnd{"call depth exceeded in " + fn.String()})
 	}
-	defer func() { p.depth-- }()
+	p.callStack = append(p.callStack, fn)
+	defer func() { p.depth--; p.callStack = p.callStack[:len(p.callStack)-1] }()
 	if p.tolerant == 0 {
 		p.res.mu.Lock()
 		p.res.Funcs[fn.String()] = true
